@@ -3,7 +3,8 @@
 //! Used by C01, C03, C05.
 
 use nuts_rs::verif::{
-    Collector, DiagMassMatrix, Hamiltonian, LowRankMassMatrix, NutsOptions, Point, SampleInfo,
+    Collector, DiagMassMatrix, Direction, Hamiltonian, LeapfrogResult, LowRankMassMatrix, NutsOptions, Point,
+    SampleInfo,
     State, TransformedHamiltonian, TransformedPoint, nuts_draw,
 };
 use nuts_rs::{DivergenceInfo, KineticEnergyKind, LowRankSettings, Math};
@@ -158,6 +159,41 @@ fn run_with<H: Hamiltonian<WM, Point = TransformedPoint<WM>>>(
     let mut rng = ScriptRng::new(words, ju(case, "seed", 1));
     let opts = options(case);
     let mut draws = vec![];
+    if let Some(steps) = case.get("single_steps").and_then(|x| x.as_array()) {
+        // direct calls of Hamiltonian::leapfrog with a chosen direction and step-size factor,
+        // each continuing from the state the previous call returned
+        math.gauss_script.push_back(mom.clone());
+        if let Err(e) = ham.initialize_trajectory(&mut math, &mut state, true, &mut rng) {
+            return json!({"id": case["id"], "init_state": format!("err: {e:?}")});
+        }
+        let mut coll = LogCollector::default();
+        coll.init = Some(point_json(&mut math, &state));
+        let base = state.point().initial_energy();
+        let mut cur = state.clone();
+        let mut factors = vec![];
+        for st in steps {
+            let dir = if st[0].as_i64().unwrap_or(1) >= 0 { Direction::Forward } else { Direction::Backward };
+            let f = st[1].as_f64().unwrap_or(1.0);
+            let res = catch(|| ham.leapfrog(&mut math, &cur, dir, f, base, jf(case, "max_energy_error", 1000.0), &mut coll));
+            match res {
+                Ok(LeapfrogResult::Ok(next)) => {
+                    factors.push(f);
+                    cur = next;
+                }
+                Ok(_) => {
+                    factors.push(f);
+                    break;
+                }
+                Err(p) => return json!({"id": case["id"], "init_state": "ok", "panic": p, "draws": []}),
+            }
+        }
+        for (lf, f) in coll.leapfrogs.iter_mut().zip(factors.iter()) {
+            lf["factor"] = json!(f);
+        }
+        let d = json!({"init": coll.init, "leapfrogs": coll.leapfrogs, "single_steps": true,
+                       "final": point_json(&mut math, &cur)});
+        return json!({"id": case["id"], "init_state": "ok", "draws": [d], "evals": [], "evals_before": evals_before});
+    }
     for k in 0..ndraws {
         // momentum of draw k: rotate the scripted vector so that successive draws differ
         let m: Vec<f64> = (0..dim).map(|i| mom[(i + k as usize) % dim.max(1)]).collect();
